@@ -162,6 +162,12 @@ func genC07(r *hx.R, tier string, _ string) (*hx.Suite, error) {
 		xs = append(xs, string([]byte{byte(b)}))
 	}
 	xs = append(xs, c07Odd...)
+	// multi-byte runes that alias an allowed ASCII character when truncated to 8 or 7 bits, and the fullwidth forms
+	for _, b := range []rune{'a', 'Z', '0', '_', '-', '.', ':'} {
+		for _, base := range []rune{0x100, 0x2000, 0x1F500, 0xFEE0, 0x80} {
+			xs = append(xs, string(base+b))
+		}
+	}
 	for _, x := range xs {
 		for _, shape := range []string{"X", "Xb", "aXb", "aX", "aXXb"} {
 			part := strings.ReplaceAll(shape, "X", x)
